@@ -266,7 +266,12 @@ def _validate_folds(ctx, plan, ent):
     from checks import c05
     a, kw = ent['args'], ent['kwargs']
     src = a[0]
-    rd, pdn = kw.get('rdm_descriptor', 'index'), kw.get('pattern_descriptor', 'index')
+    # judged by the descriptors the *routine* was called with: groups of its rdm/pattern descriptor must stay on one side
+    # whatever the routine hands on to the generator
+    rd = plan['opts'].get('rdm_desc') or kw.get('rdm_descriptor', 'index')
+    pdn = plan['opts'].get('pat_desc') or kw.get('pattern_descriptor', 'index')
+    if (kw.get('rdm_descriptor', 'index'), kw.get('pattern_descriptor', 'index')) != (rd, pdn):
+        ctx.probe('fold_generator_called_with_other_descriptors')
     try:
         Gr = len(set(normlist(src.rdm_descriptors[rd])))
         Gp = len(set(normlist(src.pattern_descriptors[pdn])))
